@@ -100,6 +100,27 @@ thread_local! {
     static RAW: std::cell::RefCell<String> = const { std::cell::RefCell::new(String::new()) };
 }
 
+thread_local! {
+    static MATCHES: std::cell::RefCell<String> = const { std::cell::RefCell::new(String::new()) };
+}
+
+/// Forget match lists left over from a run that did not reach `record_raw` (a panic).
+pub fn reset_matches() {
+    MATCHES.with(|m| m.borrow_mut().clear());
+}
+
+/// The leaves matching in one DFA state, as `get_state_type` sees them (line RMATCH, emitted with the raw graph).
+pub fn record_matches(state: usize, leaves: Vec<usize>) {
+    MATCHES.with(|m| {
+        let mut m = m.borrow_mut();
+        write!(m, "RMATCH {}", state).unwrap();
+        for l in leaves {
+            write!(m, " {}", l).unwrap();
+        }
+        m.push('\n');
+    });
+}
+
 /// The graph as built from the DFA, before the early-accept / late-accept / pruning / de-duplication
 /// passes of `Graph::new` (lines RAWDEF, RSTATE, REDGE; emitted in front of the final dump).
 pub fn record_raw(graph: &Graph) {
@@ -123,6 +144,7 @@ pub fn record_raw(graph: &Graph) {
             out.push('\n');
         }
     }
+    out.push_str(&MATCHES.with(|m| std::mem::take(&mut *m.borrow_mut())));
     RAW.with(|r| *r.borrow_mut() = out);
 }
 
